@@ -747,7 +747,82 @@ def _tie(res, name, case_type, check_fun, cases, metas, describe):
     return bad
 
 
+def anchored_functions():
+    '''The validation code of the property's anchors (properties.jsonl).'''
+    from MIP.mip import datacard
+    from t4_geom_convert import main as t4main
+    from t4_geom_convert.Kernel.Composition import \
+        CompositionConversionMCNPToT4 as comp
+    from t4_geom_convert.Kernel.FileHandlers.Parser import ParseMCNPSurface
+    from t4_geom_convert.Kernel.FileHandlers.Parser.ParseMCNPCell import \
+        ParseMCNPCell
+    from t4_geom_convert.Kernel.Surface import ESurfaceTypeMCNP, MacroBodies
+    from t4_geom_convert.Kernel.Transformation import Transformation
+    from t4_geom_convert.Kernel.Volume import Lattice
+    from t4_geom_convert.Kernel.Volume.CellConversion import CellConversion
+    return [t4main.parse_lattice, Lattice.parse_ranges,
+            Lattice.LatticeBounds.size,
+            Lattice.squareLatticeReciprocalVecs,
+            Transformation.normalize_transform, Transformation.normalize_matrix,
+            Transformation.get_mcnp_transforms,
+            ParseMCNPCell.__init__, ParseMCNPCell.parse_importance_cards,
+            ParseMCNPCell.parse_one_cell_worker, ParseMCNPCell.to_fillid,
+            ParseMCNPCell.parse_keywords, ParseMCNPCell.parse_fill_kw,
+            ParseMCNPCell.parse_lat_kw, ParseMCNPCell.parse_trcl_kw,
+            datacard.expand_data_card, datacard.to_float,
+            ParseMCNPSurface.normalize_surface, ParseMCNPSurface.to_surface_mcnp,
+            ParseMCNPSurface.to_surfaces_macro, ParseMCNPSurface.to_surfaces_mcnp,
+            MacroBodies.check_params_length, ESurfaceTypeMCNP.string_to_enum,
+            CellConversion.pot_expand_surfs, CellConversion.develop_lattice,
+            comp.compositionConversionMCNPToT4]
+
+
+# lines of the anchored functions that no deck of this property can reach, by
+# their source text
+UNREACHABLE = [
+    # proved unreachable: normalised transformations never have 13 entries
+    # (C17_tr_lengths_never_13)
+    "raise NotImplementedError('affine transformations with m!=1 '",
+    # normalize_matrix: a matrix given by columns needs nJ entries in a TR card
+    # (outside the model, see ASSUMPTIONS)
+    'return transpose(normalize_matrix3(transpose(matrix9)))',
+    'return transpose(normalize_matrix6(transpose(matrix9)))',
+    # expand_data_card is only called with dtype 'int' or 'float'
+    "raise ValueError('unrecognized dtype: {}'.format(dtype))",
+    # to_surface_mcnp: the cone tuple of every mcnp2cad entry has 3 entries
+    'compl_params = (*compl_params, None)',
+    "msg = f'Unexpected number of parameters for cone: {compl_params}'",
+    'raise ValueError(msg)',
+    # to_surfaces_macro: every macrobody of the enum has a branch
+    "raise NotImplementedError(f'Macrobody {enum_surface} is not '",
+    # develop_lattice is only called on lattice cells
+    'return',
+]
+
+
 def run(res, tier, seed, proofs_ok):
+    '''Everything below runs under a line tracer restricted to the anchored
+    functions: the generated inputs must execute every reachable line.'''
+    import c02_cov
+    cov = c02_cov.LineCov(anchored_functions())
+    with cov:
+        _run(res, tier, seed, proofs_ok)
+    total, missing = cov.missing(UNREACHABLE)
+    res.obligation(f'coverage: the generated inputs execute every reachable line '
+                   f'of the anchored validation code ({total} lines of '
+                   f'{len(cov.codes)} code objects)', not missing,
+                   f'never executed: {missing[:8]}')
+    res.extra['anchored_lines'] = total
+    if missing:
+        res.violation('harness-error',
+                      'generated inputs no longer reach these lines of the '
+                      f'anchored code: {missing[:10]}',
+                      {'theorem_or_correspondence': 'coverage',
+                       'input': {'lines': [list(m) for m in missing[:40]]}},
+                      found_input=False)
+
+
+def _run(res, tier, seed, proofs_ok):
     rng = random.Random(seed)
     quick = tier == 'quick'
     res.rule = ('valid decks drawn from 11 features (TR cards, surface TR, '
@@ -979,10 +1054,17 @@ def run(res, tier, seed, proofs_ok):
 
     # ---- 2e. IMP cards, material cards -----------------------------------
     cases, metas = [], []
+    # abbreviations outside the model (skipped by the tie, executed for coverage)
+    fixed_imp = [[['imp:n', ['1', '2ilog', '8']]], [['imp:n', ['1', '2i', '4']]],
+                 [['imp:n', ['1', '3m', '2.0+0m']]], [['imp:n', ['1', 'm']]],
+                 [['imp:n', ['1', 'log', '4']]]]
     for _ in range(60 if quick else 600):
         ncards = rng.choice([0, 1, 1, 2, 2, 3])
         n = rng.randint(1, 6)
         cards = []
+        if fixed_imp:
+            cards = fixed_imp.pop()
+            ncards = 0
         names = rng.sample(['imp:n', 'imp:p', 'imp:e', 'imp:n,p'], ncards)
         for name in names:
             m = n if rng.random() < 0.7 else max(1, n + rng.choice([-1, 1, 2]))
@@ -995,6 +1077,11 @@ def run(res, tier, seed, proofs_ok):
                 toks[-1] = 'r'
             elif how < 0.36 and m > 1:
                 toks[rng.randrange(1, m)] = rng.choice(['j', '2j'])
+            elif how < 0.45 and m > 2:
+                # abbreviations outside the model (the tie skips them, the lines
+                # of expand_data_card are still executed)
+                toks[rng.randrange(1, m - 1)] = rng.choice(
+                    ['2m', '1.5+0m', 'm', 'i', '2i', 'ilog', '2log'])
             elif how < 0.4 and m > 1:
                 # (a first token that is not a number is taken into the card
                 # name by MIP's card splitting: outside the model)
